@@ -19,7 +19,7 @@ import sys
 import time
 
 ROOT = os.path.dirname(os.path.abspath(__file__))
-KANI_DIR = os.path.join(ROOT, "kani")
+KANI_DIR = os.environ.get("VERIF_KANI_DIR") or os.path.join(ROOT, "kani")
 EVID_DIR = os.environ.get("VERIF_EVIDENCE_DIR") or os.path.join(ROOT, "evidence")
 REPLAY_DIR = os.environ.get("VERIF_REPLAY_DIR") or os.path.join(ROOT, "replays")
 CACHE = os.path.join(ROOT, ".cache")
